@@ -1,6 +1,6 @@
 #!/bin/bash
 # seedmatrix_par.sh [-j N] [seed-dir-name ...] : like seedmatrix.sh, but never touches /repo: every seed gets its own
-# scratch worktree of /repo's HEAD (under /tmp/smx) with the patch applied and its own copy of /verif, and the quick
+# scratch worktree of /repo's HEAD (under /tmp/smx) with the patch applied and its own copy of /verif's HEAD (committed files only), and the quick
 # tier of its checks runs there (VERIF_REPO).  N seeds run at a time (default 4).  One line per seed; exit 0 iff every
 # seed was caught.  The scratch worktrees and copies are removed as each seed finishes.
 J=4
@@ -21,7 +21,7 @@ one() {
   if ! git -C $wt apply $p 2>/tmp/smx/$n.err; then
     echo "$n: patch does not apply ($(head -1 /tmp/smx/$n.err))"; git -C /repo worktree remove --force $wt; return 1
   fi
-  mkdir -p $vc && (cd $ROOT && tar cf - --exclude=.git --exclude=.bin --exclude=evidence/replays .) | (cd $vc && tar xf -)
+  mkdir -p $vc && git -C $ROOT archive HEAD | (cd $vc && tar xf -)
   ids="$id $(python3 -c "import json;print(' '.join(json.load(open('$d/meta.json')).get('also',[])))" 2>/dev/null)"
   res=""; caught=0
   for c in $ids; do
